@@ -7,7 +7,7 @@ SPEC = {
         "subst": ["-DST_DEFAULT_VALIDATION=ST::substitute_invalid", "-DVERIF_CONFIGURED_MODE=1"],
         "check": ["-DST_DEFAULT_VALIDATION=ST::check_validity", "-DVERIF_CONFIGURED_MODE=2"],
     },
-    "quick": {"rc_cases": 8000, "rc_procs": 3, "enum": True},
+    "quick": {"rc_cases": 15000, "rc_procs": 3, "enum": True},
     "thorough": {"rc_cases": 60000, "rc_procs": 4, "enum": True, "fuzz_secs": 240, "fuzz_workers": 12},
     "assumptions": [
         "harness/ref/ref_unicode.h is a correct reading of the tolerated and offending forms listed in the statement",
